@@ -38,7 +38,7 @@ pub struct Local {
     pub metrics: BTreeMap<String, f64>,
     /// replay mode: print every verdict
     pub verbose: bool,
-    pub last_verdict: Option<String>,
+    pub verdicts: Vec<String>,
     /// keep the K smallest violations per signature instead of the K first (order-independent: BFS)
     pub keep_smallest: bool,
 }
@@ -62,7 +62,7 @@ impl Local {
             self.outcomes.insert(outcome);
         }
         if self.verbose {
-            self.last_verdict = Some(format!("HOLDS (nontrivial={nontrivial}, outcome class={outcome})"));
+            self.verdicts.push(format!("HOLDS (nontrivial={nontrivial}, outcome class={outcome})"));
         }
     }
     /// The statement is silent on this trace.
@@ -72,7 +72,7 @@ impl Local {
         self.transitions += calls;
         self.dontcare += 1;
         if self.verbose {
-            self.last_verdict = Some("DONT-CARE (statement is silent on this trace)".into());
+            self.verdicts.push("DONT-CARE (statement is silent on this trace)".into());
         }
     }
     pub fn viol(&mut self, check: &str, sig: String, args: Vec<String>, expected: String, observed: String) {
@@ -82,7 +82,7 @@ impl Local {
         let c = self.sig_counts.entry(full.clone()).or_insert(0);
         *c += 1;
         if self.verbose {
-            self.last_verdict = Some(format!("VIOLATES sig={full}\n  expected: {expected}\n  observed: {observed}"));
+            self.verdicts.push(format!("VIOLATES sig={full}\n  expected: {expected}\n  observed: {observed}"));
         }
         if *c <= KEEP_PER_SIG {
             self.viols.push(Violation { check: check.to_string(), sig: full, args, expected, observed });
@@ -177,6 +177,7 @@ impl Local {
 
 thread_local! {
     static LAST_PANIC: RefCell<Option<(String, String)>> = const { RefCell::new(None) };
+    static IN_GUARD: std::cell::Cell<bool> = const { std::cell::Cell::new(false) };
 }
 
 pub fn install_panic_hook() {
@@ -189,8 +190,9 @@ pub fn install_panic_hook() {
             "<non-string panic>".to_string()
         };
         let loc = info.location().map(|l| format!("{}:{}", l.file(), l.line())).unwrap_or_default();
-        if loc.contains("/verif/harness/") || loc.starts_with("src/") {
+        if loc.contains("/verif/harness/") || loc.starts_with("src/") || !IN_GUARD.with(|g| g.get()) {
             eprintln!("HARNESS-PANIC at {loc}: {msg}");
+            eprintln!("{}", std::backtrace::Backtrace::force_capture());
         }
         LAST_PANIC.with(|p| *p.borrow_mut() = Some((msg, loc)));
     }));
@@ -244,7 +246,10 @@ impl Panicked {
 /// Run a call into the code under test; a panic becomes an `Err`.
 #[inline]
 pub fn guard<T>(f: impl FnOnce() -> T) -> Result<T, Panicked> {
-    match catch_unwind(AssertUnwindSafe(f)) {
+    IN_GUARD.with(|g| g.set(true));
+    let r = catch_unwind(AssertUnwindSafe(f));
+    IN_GUARD.with(|g| g.set(false));
+    match r {
         Ok(v) => Ok(v),
         Err(_) => {
             let (msg, loc) = LAST_PANIC.with(|p| p.borrow_mut().take()).unwrap_or_default();
